@@ -78,8 +78,14 @@ def gen(seed, tier):
             ops.append(['write', r.randrange(3), r.choice(
                 ('w', 'w', 'a', 'a', 'r+', 'r+', 'consume', 'consume',
                  'consume-fail'))])
-        elif x < 0.46:
+        elif x < 0.43:
             ops.append(['other'])
+        elif x < 0.445:
+            # the observer keeps a reader open across its boundaries
+            ops.append(['holdB', r.randrange(3)])
+        elif x < 0.46:
+            # abort while a writer is still open
+            ops.append(['openabort', r.randrange(3)])
         elif x < 0.52:
             ops.append(['sp'])
         elif x < 0.57:
@@ -821,6 +827,52 @@ class M:
         self.check_reads(self.B, 'observer', committed_only=True)
         self.trace.append('readB')
 
+    def op_holdB(self, k):
+        """The observer opens a committed blob for reading and keeps the
+        file open while others commit and it crosses boundaries."""
+        info = self.blobs.get(k)
+        if info is None or info['committed'] is None:
+            return
+        self.B.begin()
+        root = self.B.root()
+        if 'b%d' % k not in root:
+            return
+        held = getattr(self, 'held', None)
+        if held is None:
+            held = self.held = []
+        try:
+            held.append(root['b%d' % k].open('r'))
+        except Exception as e:      # noqa: B902
+            self.flag('blob-unreadable', 'observer open raised %s'
+                      % type(e).__name__)
+        self.trace.append('holdB')
+
+    def op_openabort(self, k):
+        """Abort while a file opened for writing is still open."""
+        info = self.blobs.get(k)
+        if info is None or info['pending'] is None:
+            return
+        b = info['obj']
+        try:
+            f = b.open('w')
+        except Exception:       # noqa: B902
+            return
+        f.write(b'never-committed-' + self.data())
+        self.dirty_blob_txn = True
+        self.A.abort()
+        try:
+            f.close()
+        except Exception:       # noqa: B902
+            pass
+        self.end_fail()
+        # (the working file of a live, un-added Blob object is legitimate:
+        # let go of it before looking)
+        f = b = info = None
+        if self.adopt():
+            self.flag('abort-stored', 'abort left a transaction')
+        self.trace.append('openabort')
+        self.after_step('after abort with an open writer', True)
+
     def copy_check(self):
         """C17's blob clause: copying all transactions into another
         blob-capable storage reproduces every blob revision's file."""
@@ -871,6 +923,11 @@ class M:
                 pass
 
     def finish(self):
+        for f in getattr(self, 'held', ()):
+            try:
+                f.close()
+            except Exception:       # noqa: B902
+                pass
         try:
             self.A.abort()
             self.B.abort()
@@ -917,6 +974,10 @@ def run(case):
                 m.op_readB()
             elif k == 'wrap':
                 m.op_wrap()
+            elif k == 'holdB':
+                m.op_holdB(op[1])
+            elif k == 'openabort':
+                m.op_openabort(op[1])
             if len(m.viol) >= 8:
                 break
         if not m.viol and case.get('copy', True):
